@@ -194,3 +194,238 @@ Proof.
   destruct (cancel_auth _ _ _ _ _ (run_inv ops s' I') A2) as (y & Hy & Ey & _).
   apply NL2. unfold is_live, live, ids. rewrite map_app. apply in_or_app. left. rewrite <- Ey. apply in_map; auto.
 Qed.
+
+(* ---------- payload / preservation ---------- *)
+Theorem payload_preserved : forall s o s' evs, Inv s -> accepted s o s' evs -> forall x', In x' (live s') ->
+  In x' (live s) \/
+  (exists sender dest amount fee token, o = Send sender dest amount fee token /\ 0 < amount /\ 0 < fee /\
+      x' = mk_tx (next_tx s) sender dest token amount fee /\ In x' (pool s')) \/
+  (exists x who add token which, In x (pool s) /\ o = IncreaseFee (tx_id x) who add token which /\ 0 < add /\
+      x' = with_fee x (tx_fee x + add) /\ In x' (pool s')).
+Proof.
+  intros s o s' evs I A x' Hx'. apply accepted_exec in A.
+  pose proof (exec_rel _ _ _ _ I A) as [TX _ _ _ _ _ _]. destruct TX.
+  - left. eapply perm_in; eauto.
+  - apply (perm_in _ _ _ _ H) in Hx'. destruct Hx' as [<-|Hx']; auto. right; left.
+    simpl in A. destruct (send_spec _ _ _ _ _ _ _ _ A) as (Ha & Hf & _).
+    exists sender, dest, amount, fee, token. auto.
+  - left. eapply perm_in; [apply Permutation_sym; eauto|]. simpl; auto.
+  - apply (perm_in _ _ _ _ H3) in Hx'. destruct Hx' as [<-|Hx'].
+    + right; right. exists x, who, add, token, which. subst id. auto.
+    + left. eapply perm_in; [apply Permutation_sym; eauto|]. simpl; auto.
+  - left. eapply perm_in; [apply Permutation_sym; eauto|]. apply in_or_app; auto.
+Qed.
+
+(* every live transfer stays live, record unchanged, unless this very step cancels it, raises its fee or executes its batch *)
+Theorem live_preserved : forall s o s' evs, Inv s -> accepted s o s' evs -> forall x, In x (live s) ->
+  In x (live s') \/
+  (o = Cancel (tx_id x) (tx_sender x) /\ In x (pool s)) \/
+  (exists who add token which, o = IncreaseFee (tx_id x) who add token which /\ In x (pool s) /\
+      In (with_fee x (tx_fee x + add)) (pool s')) \/
+  (exists h b, o = BatchExecuted (b_token b) (b_nonce b) h /\ In b (batches s) /\ In x (b_txs b)).
+Proof.
+  intros s o s' evs I A x Hx. apply accepted_exec in A.
+  assert (U : forall y, In y (live s) -> tx_id y = tx_id x -> y = x).
+  { intros y Hy E. eapply nodup_ids_unique; eauto. apply I. }
+  pose proof (exec_rel _ _ _ _ I A) as [TX _ _ _ _ _ _]. destruct TX.
+  - left. eapply perm_in; [apply Permutation_sym; eauto|auto].
+  - left. eapply perm_in; [apply Permutation_sym; eauto|simpl; auto].
+  - apply (perm_in _ _ _ _ H2) in Hx. destruct Hx as [->|Hx]; auto. right; left. subst. auto.
+  - apply (perm_in _ _ _ _ H2) in Hx. destruct Hx as [->|Hx].
+    + right; right; left. exists who, add, token, which. subst id. auto.
+    + left. eapply perm_in; [apply Permutation_sym; eauto|simpl; auto].
+  - apply (perm_in _ _ _ _ H2) in Hx. apply in_app_or in Hx. destruct Hx as [Hx|Hx]; auto.
+    right; right; right. exists h, b. subst. auto.
+Qed.
+
+(* CancelOutgoingTxBatch itself: all transfers of the batch are in the pool afterwards, verbatim; the batch is gone *)
+Theorem cancel_batch_restores : forall c s b s' evs, Inv s -> cancel_batch c s b = ROk (s', evs) ->
+  exists b0, In b0 (batches s) /\ b_token b0 = b_token b /\ b_nonce b0 = b_nonce b /\
+    (forall x, In x (b_txs b0) -> In x (pool s')) /\ ~ In b0 (batches s') /\
+    Permutation (live s') (live s) /\ bal s' = bal s.
+Proof.
+  intros c s b s' evs I H. destruct (cancel_batch_spec _ _ _ _ _ (inv_bn _ I) H) as (b0 & Hin & Ht & Hn & _ & P1 & P2 & Eb & R).
+  decompose [and] R. exists b0. repeat split; auto.
+  - intros x Hx. eapply perm_in; [apply Permutation_sym; eauto|]. apply in_or_app; auto.
+  - rewrite Eb. unfold batch_remove. intro F. apply filter_In in F. destruct F as [_ F].
+    assert (B : batch_is (b_token b0) (b_nonce b0) b0 = true) by (apply batch_is_spec; auto). rewrite B in F. discriminate.
+  - eapply live_cancel; eauto.
+Qed.
+
+(* ---------- the ledger ---------- *)
+Lemma key_eqb_eq : forall a b, key_eqb a b = true <-> a = b.
+Proof.
+  intros [[a1 a2] a3] [[b1 b2] b3]; unfold key_eqb. rewrite !andb_true_iff, !Z.eqb_eq.
+  split; [intros [[-> ->] ->]; reflexivity | intros H; inv H; auto].
+Qed.
+
+Lemma key_eqb_refl : forall a, key_eqb a a = true.
+Proof. intros; apply key_eqb_eq; auto. Qed.
+
+Lemma key_eqb_neq : forall a b, a <> b -> key_eqb a b = false.
+Proof. intros a b N. destruct (key_eqb a b) eqn:E; auto. apply key_eqb_eq in E. contradiction. Qed.
+
+Lemma get_credit_same : forall l k v, get_bal (credit l k v) k = get_bal l k + v.
+Proof. intros; unfold credit; simpl. rewrite key_eqb_refl; auto. Qed.
+
+Lemma get_credit_other : forall l k v k', k' <> k -> get_bal (credit l k v) k' = get_bal l k'.
+Proof. intros; unfold credit; simpl. rewrite key_eqb_neq; auto. Qed.
+
+Lemma get_debit : forall l k v l', debit l k v = ROk l' ->
+  v <= get_bal l k /\ get_bal l' k = get_bal l k - v /\ forall k', k' <> k -> get_bal l' k' = get_bal l k'.
+Proof.
+  unfold debit; intros l k v l' H. destruct (get_bal l k <? v) eqn:E; [discriminate|]. inv H.
+  apply Z.ltb_ge in E. simpl. rewrite key_eqb_refl. repeat split; auto.
+  intros k' N. rewrite key_eqb_neq; auto.
+Qed.
+
+Definition user_key (k : acct_key) : Prop := fst (fst k) <> MODULE.
+
+(* a cancel pays exactly amount + fee to the creator, in the token's base denom, and touches no other user balance *)
+Theorem refund_exact : forall s id who s' evs, Inv s -> who <> MODULE -> accepted s (Cancel id who) s' evs ->
+  exists x, In x (pool s) /\ tx_id x = id /\ tx_sender x = who /\
+    get_bal (bal s') (who, tx_token x, 0) = get_bal (bal s) (who, tx_token x, 0) + (tx_amount x + tx_fee x) /\
+    (forall k, user_key k -> k <> (who, tx_token x, 0) -> get_bal (bal s') k = get_bal (bal s) k).
+Proof.
+  intros s id who s' evs I NM A. apply accepted_exec in A. simpl in A.
+  destruct (cancel_spec _ _ _ _ _ (inv_pool_nodup _ I) A) as (x & Hin & Hid & Hs & _ & _ & _ & _ & _ & _ & _ & _ & k & _ & B).
+  exists x. repeat split; auto; unfold bridge_to_base in B; destruct k; mon;
+    destruct (get_debit _ _ _ _ H) as (_ & _ & O).
+  - rewrite get_credit_same, O; auto. intro E; inv E; auto.
+  - rewrite get_credit_same, O; auto. intro E; inv E; auto.
+  - intros k Uk Nk. rewrite get_credit_other, O; auto. intro E; subst k; apply Uk; reflexivity.
+  - intros k Uk Nk. rewrite get_credit_other, O; auto. intro E; subst k; apply Uk; reflexivity.
+Qed.
+
+(* a fee increase: the payer pays exactly the added fee in the offered denom, the entry's fee grows by it, nothing else changes *)
+Theorem fee_exact : forall s id who add token which s' evs, Inv s -> who <> MODULE ->
+  accepted s (IncreaseFee id who add token which) s' evs ->
+  0 < add /\
+  (exists w, get_bal (bal s') (who, token, w) = get_bal (bal s) (who, token, w) - add /\
+     forall k, user_key k -> k <> (who, token, w) -> get_bal (bal s') k = get_bal (bal s) k) /\
+  (exists x L, In x (pool s) /\ tx_id x = id /\ tx_token x = token /\
+     Permutation (pool s) (x :: L) /\ Permutation (pool s') (with_fee x (tx_fee x + add) :: L)) /\
+  batches s' = batches s /\ calls s' = calls s /\
+  next_tx s' = next_tx s /\ next_batch s' = next_batch s /\ next_call s' = next_call s /\ obs_ext s' = obs_ext s /\ evs = [].
+Proof.
+  intros s id who add token which s' evs I NM A. apply accepted_exec in A. simpl in A.
+  destruct (increase_spec _ _ _ _ _ _ _ _ (inv_pool_nodup _ I) A)
+    as (Ha & x & L & Hin & Hid & Ht & P & P' & Eb & Ec & Et & Enb & Enc & Eo & Ev & k & _ & B).
+  repeat split; auto.
+  - unfold pay_added_fee in B. destruct k; mon.
+    + destruct (get_debit _ _ _ _ H) as (_ & D & O). exists 0. split.
+      * rewrite get_credit_other, D; auto. intro E; inv E; auto.
+      * intros k Uk Nk. rewrite get_credit_other, O; auto. intro E; subst k; apply Uk; reflexivity.
+    + destruct (get_debit _ _ _ _ B) as (_ & D & O). exists 1. split; auto.
+  - exists x, L. auto.
+Qed.
+
+(* a refund of an outgoing bridge call credits the refund address with exactly the locked amount of every token *)
+Definition refund_which (k : tkind) : Z := match k with KNative => 0 | KExt => 1 end.
+
+Lemma refund_coins_other : forall ts coins l r l', refund_coins ts l r coins = ROk l' ->
+  forall k, user_key k -> fst (fst k) <> r -> get_bal l' k = get_bal l k.
+Proof.
+  induction coins as [|[t a] rest IH]; simpl; intros l r l' H k Uk Nk; [inv H; auto|].
+  destruct (kind_of ts t) as [kd|]; [|discriminate]. destruct (a <=? 0); [eauto|]. destruct kd.
+  - mon. rewrite (IH _ _ _ H k Uk Nk). destruct (get_debit _ _ _ _ H0) as (_ & _ & O).
+    rewrite get_credit_other, O; auto; intro E; subst k; simpl in *; auto.
+  - rewrite (IH _ _ _ H k Uk Nk). rewrite get_credit_other; auto. intro E; subst k; simpl in *; auto.
+Qed.
+
+Fixpoint credited (ts : list (Z * tkind)) (coins : list (Z * Z)) (t w : Z) : Z :=
+  match coins with
+  | [] => 0
+  | (t', a) :: r =>
+      (if (t' =? t) && (0 <? a) && (match kind_of ts t' with Some kd => refund_which kd =? w | None => false end) then a else 0)
+      + credited ts r t w
+  end.
+
+Lemma refund_coins_sum : forall ts coins l r l', r <> MODULE -> refund_coins ts l r coins = ROk l' ->
+  forall t w, get_bal l' (r, t, w) = get_bal l (r, t, w) + credited ts coins t w.
+Proof.
+  induction coins as [|[t0 a0] rest IH]; simpl; intros l r l' NM H t w; [inv H; lia|].
+  destruct (kind_of ts t0) as [kd|] eqn:K; [|discriminate].
+  destruct (a0 <=? 0) eqn:E0.
+  - apply Z.leb_le in E0. rewrite (IH _ _ _ NM H t w).
+    assert ((0 <? a0) = false) by (apply Z.ltb_ge; lia). rewrite H0, andb_false_r. simpl. lia.
+  - apply Z.leb_gt in E0. assert (P : (0 <? a0) = true) by (apply Z.ltb_lt; lia). rewrite P, andb_true_r.
+    destruct kd; cbn [refund_which].
+    + mon. rewrite (IH _ _ _ NM H t w). destruct (get_debit _ _ _ _ H0) as (_ & _ & O).
+      destruct ((t0 =? t) && (0 =? w)) eqn:C.
+      * apply andb_true_iff in C. destruct C as [C1 C2]. apply Z.eqb_eq in C1, C2. subst t w.
+        rewrite get_credit_same, O; [rewrite ?Z.eqb_refl; simpl; lia|]. intro E; inv E; auto.
+      * rewrite get_credit_other, O; [cbv iota; lia| |]; intro E; inv E; try (apply NM; reflexivity);
+          rewrite !Z.eqb_refl in C; discriminate.
+    + rewrite (IH _ _ _ NM H t w).
+      destruct ((t0 =? t) && (1 =? w)) eqn:C.
+      * apply andb_true_iff in C. destruct C as [C1 C2]. apply Z.eqb_eq in C1, C2. subst t w.
+        rewrite get_credit_same. rewrite ?Z.eqb_refl; simpl; lia.
+      * rewrite get_credit_other; [cbv iota; lia|]. intro E; inv E. rewrite !Z.eqb_refl in C; discriminate.
+Qed.
+
+Lemma coins_valid_in : forall coins prev t a, coins_valid prev coins = true -> In (t, a) coins -> prev < t /\ 0 < a.
+Proof.
+  induction coins as [|[t0 a0] rest IH]; simpl; intros prev t a V H; [contradiction|].
+  apply andb_true_iff in V. destruct V as [V Vr]. apply andb_true_iff in V. destruct V as [Vp Va].
+  apply Z.ltb_lt in Vp, Va. destruct H as [H|H]; [inv H; auto|].
+  destruct (IH _ _ _ Vr H). lia.
+Qed.
+
+Lemma credited_above : forall ts coins prev t w, coins_valid prev coins = true -> t <= prev -> credited ts coins t w = 0.
+Proof.
+  induction coins as [|[t0 a0] rest IH]; simpl; intros prev t w V L; auto.
+  apply andb_true_iff in V. destruct V as [V Vr]. apply andb_true_iff in V. destruct V as [Vp Va]. apply Z.ltb_lt in Vp.
+  assert ((t0 =? t) = false) by (apply Z.eqb_neq; lia). rewrite H. simpl. eapply IH; eauto. lia.
+Qed.
+
+Lemma credited_valid : forall ts coins prev t a kd, coins_valid prev coins = true -> In (t, a) coins ->
+  kind_of ts t = Some kd -> credited ts coins t (refund_which kd) = a.
+Proof.
+  induction coins as [|[t0 a0] rest IH]; simpl; intros prev t a kd V H K; [contradiction|].
+  pose proof V as V0. apply andb_true_iff in V. destruct V as [V Vr]. apply andb_true_iff in V. destruct V as [Vp Va].
+  apply Z.ltb_lt in Vp, Va. destruct H as [H|H].
+  - inv H. rewrite Z.eqb_refl, K, Z.eqb_refl. assert ((0 <? a) = true) by (apply Z.ltb_lt; auto). rewrite H. simpl.
+    rewrite (credited_above _ _ _ _ _ Vr); lia.
+  - destruct (coins_valid_in _ _ _ _ Vr H) as [L _].
+    assert ((t0 =? t) = false) by (apply Z.eqb_neq; lia). rewrite H0. simpl. eapply IH; eauto.
+Qed.
+
+Theorem call_refund_exact : forall cs s c s' evs, c_refund c <> MODULE -> coins_valid (-1) (c_tokens c) = true ->
+  refund_call cs s c = ROk (s', evs) ->
+  evs = [EvCallRefund (c_nonce c) (c_refund c) (c_tokens c) cs] /\
+  (forall t a, In (t, a) (c_tokens c) -> exists kd, kind_of (toks s) t = Some kd /\
+      get_bal (bal s') (c_refund c, t, refund_which kd) = get_bal (bal s) (c_refund c, t, refund_which kd) + a) /\
+  (forall k, user_key k -> fst (fst k) <> c_refund c -> get_bal (bal s') k = get_bal (bal s) k).
+Proof.
+  intros cs s c s' evs NM V H. destruct (refund_call_spec _ _ _ _ _ H) as (_ & _ & Ev & R). repeat split; auto.
+  - intros t a Hin.
+    assert (K : exists kd, kind_of (toks s) t = Some kd).
+    { clear -R Hin. revert R. generalize (bal s). induction (c_tokens c) as [|[t0 a0] rest IH]; simpl; intros l R; [contradiction|].
+      destruct (kind_of (toks s) t0) as [kd|] eqn:K; [|discriminate]. destruct Hin as [E|Hin]; [inv E; eauto|].
+      destruct (a0 <=? 0); [eauto|]. destruct kd; [mon|]; eauto. }
+    destruct K as (kd & K). exists kd. split; auto.
+    rewrite (refund_coins_sum _ _ _ _ _ NM R). f_equal. eapply credited_valid; eauto.
+  - intros k Uk Nk. eapply refund_coins_other; eauto.
+Qed.
+
+(* bridge calls: payload as supplied; once gone, gone for good *)
+Theorem call_payload : forall s o s' evs, Inv s -> accepted s o s' evs -> forall c, In c (calls s') ->
+  In c (calls s) \/
+  (c_nonce c = next_call s /\ c_evnonce c = 0 /\ c_block c = fxh s /\
+   o = BridgeCall (c_sender c) (c_refund c) (c_tokens c) (c_to c) (c_data c) (c_memo c)).
+Proof.
+  intros s o s' evs I A c Hc. apply accepted_exec in A.
+  pose proof (exec_rel _ _ _ _ I A) as [_ _ _ _ CS _ _]. destruct (CS c Hc) as [|(E1 & _ & E2 & E3 & E4)]; auto.
+Qed.
+
+Definition call_settled (s : state) (n : Z) : Prop := n < next_call s /\ ~ In n (cnonces (calls s)).
+
+Theorem call_settled_forever : forall ops s n, Inv s -> call_settled s n -> call_settled (run s ops) n.
+Proof.
+  induction ops as [|o r IH]; simpl; intros s n I S; auto.
+  apply IH; [apply step_inv; auto|]. destruct S as [C NL]. pose proof (counters_monotone s o I) as (_ & _ & M).
+  split; [lia|]. intro L. unfold cnonces in L. apply in_map_iff in L. destruct L as (c & Ec & Hc).
+  destruct (fresh_call_nonces s o I c Hc) as [Hin|(E & _)]; [|lia].
+  apply NL. unfold cnonces. rewrite <- Ec. apply in_map; auto.
+Qed.
